@@ -1,3 +1,5 @@
+use std::panic::{catch_unwind, AssertUnwindSafe};
+
 use bgpfu::RpslEvaluator;
 use ip::traits::PrefixSet;
 
@@ -36,19 +38,30 @@ impl Evaluate for Candidate {
             %self.filter_expr,
             "trying to evaluate filter expression"
         );
-        let ranges = evaluator
-            .evaluate(self.filter_expr.clone())
-            .map_err(|err| {
+        // Some RPSL constructs (`PeerAS`, AS-path regular expressions, attribute matches) are not
+        // implemented by the evaluator and panic: contain that to the policy being evaluated.
+        let ranges = catch_unwind(AssertUnwindSafe(|| {
+            evaluator.evaluate(self.filter_expr.clone())
+        }))
+        .map_err(|_| {
+            tracing::error!(
+                "evaluation of filter expression {} panicked (unsupported construct?)",
+                self.filter_expr,
+            );
+        })
+        .and_then(|result| {
+            result.map_err(|err| {
                 tracing::error!(
                     "failed to evaluate filter expression {}: {err:#}",
                     self.filter_expr,
                 );
             })
-            .map(|set| {
-                let (ipv4, ipv6) = set.as_partitions();
-                (ipv4.ranges().collect(), ipv6.ranges().collect())
-            })
-            .ok();
+        })
+        .map(|set| {
+            let (ipv4, ipv6) = set.as_partitions();
+            (ipv4.ranges().collect(), ipv6.ranges().collect())
+        })
+        .ok();
         Evaluated {
             filter_expr: self.filter_expr,
             ranges,
